@@ -12,6 +12,7 @@ import (
 	"errors"
 	"fmt"
 	"strings"
+	"sync"
 
 	ds "github.com/ipfs/go-datastore"
 	"github.com/ipfs/go-datastore/query"
@@ -94,9 +95,10 @@ type keystore struct {
 	batchSize  int
 
 	// worker goroutine communication
-	requests chan operation
-	close    chan struct{}
-	done     chan struct{}
+	requests  chan operation
+	close     chan struct{}
+	done      chan struct{}
+	closeOnce sync.Once
 
 	logger *log.ZapEventLogger
 }
@@ -616,18 +618,18 @@ func (s *keystore) Size(ctx context.Context) (int, error) {
 // called after <-s.done to avoid race conditions with the worker goroutine.
 func (s *keystore) Close() error {
 	var err error
-	select {
-	case <-s.close:
-		// Already closed
-	default:
+	// Repeated and concurrent calls wait until the first one is done, and
+	// return nil.
+	s.closeOnce.Do(func() {
 		close(s.close)
 		<-s.done // Wait for worker to exit
 		if err = s.persistSize(); err != nil {
-			return fmt.Errorf("error persisting size on close: %w", err)
+			err = fmt.Errorf("error persisting size on close: %w", err)
+			return
 		}
 		if err = s.ds.Sync(context.Background(), sizeKey); err != nil {
-			return fmt.Errorf("error syncing size on close: %w", err)
+			err = fmt.Errorf("error syncing size on close: %w", err)
 		}
-	}
+	})
 	return err
 }
